@@ -141,6 +141,10 @@ impl P {
     pub fn default() -> P {
         P { s: 3, f: 0, v: 0, g: G_DECOY }
     }
+    /// (`self.f.into()` would reach this one)
+    pub fn into<const K: u8>(self) -> TT<K> {
+        TT { s: self.s, f: self.f, v: self.v, g: G_DECOY }
+    }
 }
 
 // ---------------------------------------------------------------- probe semantics (own impls)
